@@ -249,3 +249,34 @@ pub fn mem_connect(cfg: &ClientCfg, duplex: Duplex, selected: u32) -> (Res<Conne
         Res::Panic(p) => (Res::Panic(p), "global.new"),
     }
 }
+
+/// connect and run the activation against an auto-mode profile; Err(description) when that fails
+pub fn activated_session(cfg: &ClientCfg, profile: ServerProfile) -> Result<(Connected, Handle), String> {
+    let sel = profile.selected_protocol;
+    let (duplex, h) = new_duplex(profile, None);
+    let (r, step) = mem_connect(cfg, duplex, sel);
+    let mut conn = match r {
+        Res::Ok(c) => c,
+        Res::Err(e) => return Err(format!("{} failed: {}", step, e)),
+        Res::Panic(p) => return Err(format!("{} panicked: {}", step, p.message)),
+    };
+    for _ in 0..64 {
+        let idle = {
+            let s = h.borrow();
+            s.to_client.is_empty() && s.pending.is_empty()
+        };
+        if idle {
+            break;
+        }
+        let (r, _) = call(|| conn.client.read(|_| ()));
+        match r {
+            Res::Ok(()) => {}
+            Res::Err(e) => return Err(format!("read during activation failed: {}", e)),
+            Res::Panic(p) => return Err(format!("read during activation panicked: {}", p.message)),
+        }
+    }
+    if h.borrow().server.phase != refimpl::server::Phase::Active {
+        return Err(format!("activation did not complete: phase {:?}, violations {:?}", h.borrow().server.phase, h.borrow().server.violations));
+    }
+    Ok((conn, h))
+}
